@@ -137,6 +137,8 @@ func runC05(w *World, c *Check) {
 	c.Rule("C05.sibling", "per family, encrypt and decrypt derive the cipher key and integrity hash with the same calls over the same operands and agree on the ciphertext‖MAC layout", 14)
 	c.Rule("C05.minlen", "a length test that rejects a message in a decryptor does not reject the shortest message the encryptor produces (confounder plus checksum: the encryption of an empty plaintext), for any etype of the family", 4)
 	c.Rule("C05.stamp", "GetEncryptedData stamps the key's etype and the caller's kvno and encrypts under the key's etype", 2)
+	c.Rule("C05.stateless", "a crypto function touches package-level state only as a memo table keyed by all of its parameters themselves (on this tree: no package-level state at all): results do not depend on earlier calls", 6)
+	ruleStateless(w, c, "C05.stateless")
 
 	ruleEtypeTable(w, c, "C05.table", nil)
 	ruleGetEtype(w, c, "C05.table")
